@@ -942,21 +942,31 @@ impl VtCtx {
             w.tick();
             (w.name(s), w.props(s, np))
         };
-        if re.is_empty() || props.is_empty() || self.reentrant_depth > 0 {
+        // builder calls made some time after the span was entered (timing profiles only)
+        let late = self.case.opts.brackets && !props.is_empty() && next_shape() % 3 == 0;
+        if (re.is_empty() && !late) || props.is_empty() || self.reentrant_depth > 0 {
             self.enter_local_named(name, props, via);
         } else {
-            self.enter_local_reentrant(name, props, via, re);
+            self.enter_local_reentrant(name, props, via, re, if late { 40 } else { 0 });
         }
     }
 
     /// `LocalSpan::enter_with_local_parent(name).with_properties(closure)` where the closure uses
     /// the tracing API itself: the span is entered (and modelled) first, the closure's calls run
     /// inside it, then its properties are attached to it
-    fn enter_local_reentrant(&mut self, name: String, props: Vec<(String, String)>, via: &'static str, re: &[Mini]) {
+    fn enter_local_reentrant(&mut self, name: String, props: Vec<(String, String)>, via: &'static str, re: &[Mini], spin_us: u64) {
         let before = self.guards.len();
         self.enter_local_named(name, vec![], via);
         if self.guards.len() != before + 1 {
             return;
+        }
+        if spin_us > 0 {
+            // the span is running: attaching its properties later does not move its begin
+            self.w().h.label("properties_attached_after_a_while");
+            let t = fastant::Instant::now();
+            while (t.elapsed().as_micros() as u64) < spin_us {
+                std::hint::spin_loop();
+            }
         }
         let Some(Guard::Local(l, li)) = self.guards.pop() else { unreachable!() };
         // the guard stays off the stack while the closure runs: it cannot be popped by the
@@ -1084,7 +1094,11 @@ impl VtCtx {
                 }
                 Some(li)
             }
-            None => None,
+            None => {
+                w.h.dark_names.push(name);
+                w.h.dark_names.extend(props.iter().map(|(k, _)| k.clone()));
+                None
+            }
         };
         if let Some(sc) = skipped_in {
             w.h.scopes[sc].skipped_open += 1;
@@ -1147,12 +1161,29 @@ impl VtCtx {
             return;
         }
         // early collect: [Coll(outermost), Local x k] with 1<=k<=3
-        if early && collect && self.floor == 0 && self.guards.len() >= 2 && self.guards.len() <= 4 {
+        if early && self.floor == 0 && self.guards.len() >= 2 && self.guards.len() <= 4 && !std::thread::panicking() {
             let shape_ok = matches!(self.guards[0], Guard::Coll(_, Some(_)))
                 && self.guards[1..].iter().all(|g| matches!(g, Guard::Local(_, _)));
             if shape_ok {
                 let Guard::Coll(c, Some(sc)) = self.guards.remove(0) else { unreachable!() };
-                self.collect_collector(c, sc, true);
+                if collect {
+                    self.collect_collector(c, sc, true);
+                } else {
+                    // the collector is abandoned (dropped without collect()) while local spans
+                    // of its scope are still open; their guards are dropped right afterwards
+                    self.w().h.label("early_discard");
+                    let t0 = self.w().tick();
+                    self.guarded("LocalCollector::drop", |_| drop(c));
+                    let t1 = self.close_scope_model(sc, t0);
+                    let mut w = self.w();
+                    let vt = self.id;
+                    w.h.scopes[sc].discarded = true;
+                    let open: Vec<usize> = std::mem::take(&mut w.h.scopes[sc].open);
+                    for li in open {
+                        w.h.locals[li].exit_t = Some(t1);
+                        w.h.vts[vt].ctx_stack.pop();
+                    }
+                }
                 while let Some(g) = self.guards.pop() {
                     if let Guard::Local(l, li) = g {
                         self.guarded("LocalSpan::drop(after collect)", |_| drop(l));
@@ -1465,6 +1496,9 @@ impl VtCtx {
                     invoked: hit,
                     t: t1,
                 });
+                if tgt.is_none() {
+                    w.h.dark_names.extend(props.iter().map(|(k, _)| k.clone()));
+                }
                 if let Some((target, sc)) = tgt {
                     w.h.atts.push(MAtt {
                         kind: AKind::Props(props),
@@ -1583,8 +1617,12 @@ impl VtCtx {
                 let mut w = self.w();
                 let t1 = w.tick();
                 let vt = self.id;
-                if let Some((target, sc)) = Self::local_attach_target(&mut w, vt) {
-                    w.h.atts.push(MAtt { kind: AKind::Event { name, props }, target, route: Route::Local, vt, t: (t0, t1), scope: Some(sc), b0, b1 });
+                match Self::local_attach_target(&mut w, vt) {
+                    Some((target, sc)) => w.h.atts.push(MAtt { kind: AKind::Event { name, props }, target, route: Route::Local, vt, t: (t0, t1), scope: Some(sc), b0, b1 }),
+                    None => {
+                        w.h.dark_names.push(name);
+                        w.h.dark_names.extend(props.into_iter().map(|(k, _)| k));
+                    }
                 }
             }
         }
@@ -1675,8 +1713,8 @@ impl VtCtx {
                 let mut w = self.w();
                 let t1 = w.tick();
                 let vt = self.id;
-                if let Some((target, sc)) = Self::local_attach_target(&mut w, vt) {
-                    w.h.atts.push(MAtt {
+                match Self::local_attach_target(&mut w, vt) {
+                    Some((target, sc)) => w.h.atts.push(MAtt {
                         kind: AKind::Event { name, props },
                         target,
                         route: Route::Local,
@@ -1685,7 +1723,13 @@ impl VtCtx {
                         scope: Some(sc),
                         b0,
                         b1,
-                    });
+                    }),
+                    None => {
+                        // nothing records here (no scope, an unsampled one, or a full one): the
+                        // names must never show up anywhere
+                        w.h.dark_names.push(name);
+                        w.h.dark_names.extend(props.into_iter().map(|(k, _)| k));
+                    }
                 }
             }
         }
